@@ -34,6 +34,10 @@ class Lexer(astutils.Lexer):
                 'FALSE',
             'True':
                 'TRUE',
+            'false':
+                'FALSE',
+            'true':
+                'TRUE',
             'FALSE':
                 'FALSE',
             'TRUE':
